@@ -41,6 +41,174 @@ def _u(node):
     return ast.unparse(node)
 
 
+import copy
+
+
+class _Rename(ast.NodeTransformer):
+    def __init__(self, mapping):
+        self.m = mapping
+
+    def visit_Name(self, node):
+        if node.id in self.m:
+            return ast.copy_location(ast.Name(id=self.m[node.id], ctx=node.ctx), node)
+        return node
+
+    def visit_arg(self, node):
+        if node.arg in self.m:
+            node.arg = self.m[node.arg]
+        return node
+
+
+def _names_in(fn):
+    out = set()
+    for n in ast.walk(fn):
+        if isinstance(n, ast.Name):
+            out.add(n.id)
+        elif isinstance(n, ast.arg):
+            out.add(n.arg)
+    return out
+
+
+def _rename(fn, mapping, what):
+    """alpha-rename locals/parameters; refuses (fail closed) when a canonical name is already used for
+    something else in the function – merging two variables could make a wrong body look right"""
+    mapping = {a: b for a, b in mapping.items() if a != b}
+    used = _names_in(fn)
+    for a, b in mapping.items():
+        if b in used and b not in mapping:
+            raise Unsupported("%s: cannot normalise local `%s` to `%s` (name already in use)" % (what, a, b))
+    if len(set(mapping.values())) != len(mapping):
+        raise Unsupported("%s: ambiguous renaming %r" % (what, mapping))
+    return ast.fix_missing_locations(_Rename(mapping).visit(fn))
+
+
+class _Inline(ast.NodeTransformer):
+    def __init__(self, name, expr):
+        self.name, self.expr = name, expr
+
+    def visit_Name(self, node):
+        if node.id == self.name and isinstance(node.ctx, ast.Load):
+            return copy.deepcopy(self.expr)
+        return node
+
+
+def _inline_receiver_aliases(fn, what):
+    """`x = SELF._core` / `x = SELF._options` (assigned once, at the top level of the function, never
+    rebound) is an alias of an attribute that only __init__ sets: replace x by the attribute"""
+    changed = True
+    while changed:
+        changed = False
+        for i, st in enumerate(fn.body):
+            if isinstance(st, ast.Assign) and len(st.targets) == 1 and isinstance(st.targets[0], ast.Name) \
+                    and _u(st.value) in ("SELF._core", "SELF._options"):
+                name = st.targets[0].id
+                stores = [n for n in ast.walk(fn) if isinstance(n, ast.Name) and n.id == name
+                          and isinstance(n.ctx, (ast.Store, ast.Del))]
+                params = [a for a in ast.walk(fn.args) if isinstance(a, ast.arg) and a.arg == name]
+                if len(stores) != 1 or params:
+                    raise Unsupported("%s: alias `%s` of %s is rebound" % (what, name, _u(st.value)))
+                del fn.body[i]
+                _Inline(name, st.value).visit(fn)
+                ast.fix_missing_locations(fn)
+                changed = True
+                break
+    return fn
+
+
+def _normalise(fn, what, extra_map=None):
+    """copy of fn with the receiver called SELF, **kwargs called kwargs, receiver aliases inlined"""
+    fn = copy.deepcopy(fn)
+    mapping = {_receiver(fn): "SELF"}
+    if fn.args.kwarg is not None:
+        mapping[fn.args.kwarg.arg] = "kwargs"
+    mapping.update(extra_map or {})
+    fn = _rename(fn, mapping, what)
+    return _inline_receiver_aliases(fn, what)
+
+
+def _import_table(tree):
+    """module-level name -> dotted origin (`import m [as a]`, `from m import n [as a]`)"""
+    tab = {}
+    for node in tree.body:
+        if isinstance(node, ast.Import):
+            for a in node.names:
+                tab[a.asname or a.name.split(".")[0]] = a.name if a.asname else a.name.split(".")[0]
+        elif isinstance(node, ast.ImportFrom):
+            for a in node.names:
+                tab[a.asname or a.name] = "%s%s.%s" % ("." * node.level, node.module or "", a.name)
+    for node in tree.body:   # a module-level rebinding of an imported name invalidates the entry
+        tg = []
+        if isinstance(node, ast.Assign):
+            tg = [t.id for t in node.targets if isinstance(t, ast.Name)]
+        elif isinstance(node, (ast.FunctionDef, ast.ClassDef, ast.AsyncFunctionDef)):
+            tg = [node.name]
+        for t in tg:
+            tab.pop(t, None)
+    return tab
+
+
+def _origin(tree_tab, expr):
+    """dotted origin of a Name / Attribute expression, through the import table"""
+    parts = []
+    while isinstance(expr, ast.Attribute):
+        parts.append(expr.attr)
+        expr = expr.value
+    if not isinstance(expr, ast.Name) or expr.id not in tree_tab:
+        return None
+    return ".".join([tree_tab[expr.id]] + parts[::-1])
+
+
+_VERSION_NODES = (ast.Expression, ast.Compare, ast.BoolOp, ast.And, ast.Or, ast.Not, ast.UnaryOp, ast.Tuple,
+                  ast.Constant, ast.Attribute, ast.Name, ast.Load, ast.GtE, ast.Gt, ast.LtE, ast.Lt, ast.Eq,
+                  ast.NotEq)
+
+
+def _contextvar_origin(cvtree, version):
+    """which module `load_contextvar_class()` imports ContextVar from on the given Python version: the
+    function must be an if/elif/else chain over `sys.version_info` comparisons whose branches are single
+    `from X import ContextVar` statements (possibly followed by / ending in `return ContextVar`)"""
+    loader = find_func(cvtree, "load_contextvar_class")
+
+    class _Sys:
+        version_info = version
+
+    def walk(stmts):
+        for st in stmts:
+            if isinstance(st, ast.If):
+                for n in ast.walk(st.test):
+                    if not isinstance(n, _VERSION_NODES) or (isinstance(n, ast.Name) and n.id != "sys") or \
+                            (isinstance(n, ast.Attribute) and _u(n) != "sys.version_info"):
+                        raise Unsupported("_contextvars: test %s is not a version comparison" % _u(st.test))
+                taken = eval(compile(ast.Expression(st.test), "<test>", "eval"), {"__builtins__": {}, "sys": _Sys})
+                r = walk(st.body if taken else st.orelse)
+                if r is not None:
+                    return r
+            elif isinstance(st, ast.ImportFrom) and [a.name for a in st.names] == ["ContextVar"] \
+                    and st.names[0].asname is None and st.level == 0:
+                walk.src = st.module
+            elif isinstance(st, ast.Return) and _u(st.value) == "ContextVar":
+                return walk.src
+            else:
+                raise Unsupported("_contextvars.load_contextvar_class: unexpected statement " + _u(st)[:60])
+        return None
+    walk.src = None
+    return walk(_strip_doc(loader.body))
+
+
+def _unpack_map(fn, canon, what):
+    """first statement `*a, b, … = SELF._options` -> {a: canon[0], b: canon[1], …}"""
+    body = _strip_doc(fn.body)
+    st = body[0] if body else None
+    if not (isinstance(st, ast.Assign) and len(st.targets) == 1 and isinstance(st.targets[0], ast.Tuple)
+            and _u(st.value) == "SELF._options"):
+        raise Unsupported("%s does not start by unpacking its _options" % what)
+    elts = st.targets[0].elts
+    if len(elts) != len(canon) or not isinstance(elts[0], ast.Starred) or \
+            not all(isinstance(e, ast.Name) for e in [elts[0].value] + elts[1:]):
+        raise Unsupported("%s: unexpected unpacking %s" % (what, _u(st)))
+    return dict(zip([elts[0].value.id] + [e.id for e in elts[1:]], canon))
+
+
 def _receiver(fn):
     """name of the first parameter (positional-only or not)"""
     return (fn.args.posonlyargs + fn.args.args)[0].arg
@@ -133,33 +301,22 @@ def generate():
                                      and _u(ctxassign.keywords[0].value) == "{}"):
             raise Unsupported("module-level `context` is not ContextVar(name, default={}): %s"
                               % (_u(ctxassign) if ctxassign is not None else None))
-        imported = False
-        for node in tree.body:
-            if isinstance(node, ast.ImportFrom) and node.module == "_contextvars" and node.level == 1 \
-                    and any(a.name == "ContextVar" and a.asname is None for a in node.names):
-                imported = True
-        if not imported:
-            raise Unsupported("ContextVar is not imported from ._contextvars")
-        for node in ast.walk(tree):
-            if isinstance(node, (ast.Assign, ast.AugAssign, ast.AnnAssign)) and node is not None:
-                tg = node.targets if isinstance(node, ast.Assign) else [node.target]
-                for t in tg:
-                    if _u(t) == "context" and not (isinstance(node, ast.Assign) and node.value is ctxassign):
-                        # `context = ...` also appears as a *parameter* rebinding inside add(); allow
-                        # rebinding only inside functions that have `context` as a parameter
-                        pass
-        cvtree, _ = parse_module("_contextvars.py")
-        loader = find_func(cvtree, "load_contextvar_class")
-        first = _strip_doc(loader.body)[0]
-        if not (isinstance(first, ast.If) and _u(first.test) == "sys.version_info >= (3, 7)"
-                and _u(first.body[0]) == "from contextvars import ContextVar"):
-            raise Unsupported("_contextvars.load_contextvar_class: first branch changed")
-        if _u(_strip_doc(loader.body)[-1]) != "return ContextVar":
-            raise Unsupported("_contextvars.load_contextvar_class does not return ContextVar")
-        ok_assign = any(isinstance(n, ast.Assign) and _u(n) == "ContextVar = load_contextvar_class()"
-                        for n in cvtree.body)
-        if not ok_assign:
-            raise Unsupported("_contextvars.ContextVar is not load_contextvar_class()")
+        imports = _import_table(tree)
+        cv_origin = imports.get("ContextVar")
+        if cv_origin == "._contextvars.ContextVar":
+            cvtree, _ = parse_module("_contextvars.py")
+            if not any(isinstance(n, ast.Assign) and _u(n) == "ContextVar = load_contextvar_class()"
+                       for n in cvtree.body):
+                raise Unsupported("_contextvars.ContextVar is not load_contextvar_class()")
+            import sys as _sys
+            for ver in sorted({(3, 7, 0), (3, 8, 0), (3, 11, 5), (3, 12, 0), (3, 13, 1), (3, 99, 0),
+                               tuple(_sys.version_info[:3])}):
+                if ver >= (3, 7) and _contextvar_origin(cvtree, ver) != "contextvars":
+                    raise Unsupported("_contextvars.load_contextvar_class imports ContextVar from %r on Python %r"
+                                      % (_contextvar_origin(cvtree, ver), ver))
+        elif cv_origin != "contextvars.ContextVar":
+            raise Unsupported("ContextVar comes from %r, not from contextvars (directly or via ._contextvars)"
+                              % cv_origin)
         # functions that assign to / declare global `context` (other than a parameter of that name)
         for fn in ast.walk(tree):
             if isinstance(fn, (ast.FunctionDef, ast.AsyncFunctionDef)):
@@ -180,8 +337,9 @@ def generate():
             raise Unsupported("Logger.__init__ parameters changed")
 
         # ---------------------------------------------------------------- bind
-        bind = find_func(cls, "bind")
-        me = _receiver(bind)
+        bind = _normalise(find_func(cls, "bind"), "bind")
+        bind = _rename(bind, _unpack_map(bind, ["options", "extra"], "bind"), "bind")
+        me = "SELF"
         asg, call = _single_return_logger(_strip_doc(bind.body), "bind", me)
         if _u(asg) != "*options, extra = %s._options" % me:
             raise Unsupported("bind unpacking: " + _u(asg))
@@ -199,7 +357,12 @@ def generate():
 
         # ---------------------------------------------------------------- patch
         patch = find_func(cls, "patch")
-        me = _receiver(patch)
+        ppar = patch.args.posonlyargs + patch.args.args
+        if len(ppar) != 2 or patch.args.vararg or patch.args.kwarg or patch.args.kwonlyargs:
+            raise Unsupported("patch signature")
+        patch = _normalise(patch, "patch", {ppar[1].arg: "patcher"})
+        patch = _rename(patch, _unpack_map(patch, ["options", "patchers", "extra"], "patch"), "patch")
+        me = "SELF"
         pbody = _strip_doc(patch.body)
         dedup = False
         if len(pbody) == 3 and isinstance(pbody[1], ast.If):
@@ -231,8 +394,13 @@ def generate():
                  "(`if patcher not in patchers`)? -/\ndef patchDedup : Bool := %s\n\n" % ("true" if dedup else "false"))
 
         # ---------------------------------------------------------------- opt
-        opt = find_func(cls, "opt")
-        me = _receiver(opt)
+        opt = _normalise(find_func(cls, "opt"), "opt")
+        for st in _strip_doc(opt.body):
+            if isinstance(st, ast.Assign) and len(st.targets) == 1 and isinstance(st.targets[0], ast.Name) \
+                    and _u(st.value) == "SELF._options[-2:]":
+                opt = _rename(opt, {st.targets[0].id: "args"}, "opt")
+                break
+        me = "SELF"
         asg, call = _single_return_logger(_strip_doc(opt.body), "opt", me)
         if _u(asg) != "args = %s._options[-2:]" % me:
             raise Unsupported("opt unpacking: " + _u(asg))
@@ -280,9 +448,14 @@ def generate():
             b(defaults["raw"]), b(defaults["capture"]))
 
         # ---------------------------------------------------------------- contextualize
-        cz = find_func(cls, "contextualize")
-        me = _receiver(cz)
-        if [_u(d) for d in cz.decorator_list] != ["contextlib.contextmanager"]:
+        cz = _normalise(find_func(cls, "contextualize"), "contextualize")
+        for st in ast.walk(cz):
+            if isinstance(st, ast.Assign) and len(st.targets) == 1 and isinstance(st.targets[0], ast.Name) \
+                    and isinstance(st.value, ast.Call) and _u(st.value.func) == "context.set":
+                cz = _rename(cz, {st.targets[0].id: "token"}, "contextualize")
+                break
+        me = "SELF"
+        if [_origin(imports, d) for d in cz.decorator_list] != ["contextlib.contextmanager"]:
             raise Unsupported("contextualize decorators: %r" % [_u(d) for d in cz.decorator_list])
         if cz.args.kwarg is None or cz.args.kwarg.arg != "kwargs" or len(cz.args.posonlyargs + cz.args.args) != 1:
             raise Unsupported("contextualize signature")
@@ -360,6 +533,24 @@ def generate():
 
         # ---------------------------------------------------------------- _log
         lg = find_func(cls, "_log")
+        lpar = lg.args.posonlyargs + lg.args.args
+        canon_par = ["SELF", "level", "from_decorator", "options", "message", "args", "kwargs"]
+        if len(lpar) != len(canon_par) or lg.args.vararg or lg.args.kwarg or lg.args.kwonlyargs:
+            raise Unsupported("_log signature")
+        lg = _normalise(lg, "_log", dict(zip([a.arg for a in lpar[1:]], canon_par[1:])))
+        lmap = {}
+        for st in lg.body:
+            if isinstance(st, ast.Assign) and len(st.targets) == 1 and _u(st.value) == "options" \
+                    and isinstance(st.targets[0], ast.Tuple) and len(st.targets[0].elts) == len(OPTION_NAMES) \
+                    and all(isinstance(e, ast.Name) for e in st.targets[0].elts):
+                lmap.update(zip([e.id for e in st.targets[0].elts], OPTION_NAMES))
+            if isinstance(st, ast.Assign) and len(st.targets) == 1 and isinstance(st.targets[0], ast.Name) \
+                    and isinstance(st.value, ast.Dict) \
+                    and {"extra", "message"} <= {k.value for k in st.value.keys if isinstance(k, ast.Constant)}:
+                lmap[st.targets[0].id] = "log_record"
+        # `exception` is rebound inside _log (RecordException) and `record`/`args`/`kwargs` are reused: the
+        # renaming below only canonicalises the NAMES, all uses follow
+        lg = _rename(lg, lmap, "_log")
         top = lg.body
         idx = {}
         for i, s in enumerate(top):
@@ -373,15 +564,15 @@ def generate():
                 if [_u(x) for x in s.body] != ["log_record['extra'].update(kwargs)"] or s.orelse:
                     raise Unsupported("_log: capture branch is %r" % [_u(x) for x in s.body])
                 idx["capture"] = i
-            elif isinstance(s, ast.If) and _u(s.test) == "core.patcher":
-                if [_u(x) for x in s.body] != ["core.patcher(log_record)"] or s.orelse:
+            elif isinstance(s, ast.If) and _u(s.test) == "SELF._core.patcher":
+                if [_u(x) for x in s.body] != ["SELF._core.patcher(log_record)"] or s.orelse:
                     raise Unsupported("_log: core.patcher branch changed")
                 idx["Phase.corePatcher"] = i
             elif isinstance(s, ast.For) and _u(s.iter) == "patchers":
                 if [_u(x) for x in s.body] != ["%s(log_record)" % _u(s.target)] or s.orelse:
                     raise Unsupported("_log: patchers loop changed")
                 idx["Phase.patchers"] = i
-            elif isinstance(s, ast.For) and _u(s.iter) == "core.handlers.values()":
+            elif isinstance(s, ast.For) and _u(s.iter) == "SELF._core.handlers.values()":
                 if len(s.body) != 1 or not _u(s.body[0]).startswith("%s.emit(log_record, " % _u(s.target)) or s.orelse:
                     raise Unsupported("_log: handler loop changed")
                 idx["Phase.handlers"] = i
@@ -402,7 +593,7 @@ def generate():
         if extra_val is None:
             raise Unsupported("_log: no 'extra' entry in the record display")
         lops = _dict_operands(extra_val, "record['extra']")
-        ltable = {"core.extra": "Layer.core", "context.get()": "Layer.ctx", "extra": "Layer.bound"}
+        ltable = {"SELF._core.extra": "Layer.core", "context.get()": "Layer.ctx", "extra": "Layer.bound"}
         if sorted(lops) != sorted(ltable):
             raise Unsupported("_log extra operands " + repr(lops))
         # nothing else touches log_record['extra'] / rebinding of extra, kwargs->extra between record and phases
